@@ -58,12 +58,6 @@ def rfc4884Overflow : List Layer → Bool
   | _ :: rest => rfc4884Overflow rest
   | [] => false
 
-/-- the parent `Dissect.walk` hands to the first layer of a stack whose enclosing layer is `p` -/
-def walkPar (p : Option Layer) : Parent :=
-  match p with
-  | some q => parentOf q
-  | none => .other
-
 /-- **Stacks the dissector can delimit.**  `k` is the number of zero octets the enclosing layers append behind the stack
     (Ethernet / 802.1Q minimum-size padding, RFC 4884 padding of the original datagram), `p` the enclosing layer.
     * a layer that owns everything up to the end of the bytes it is handed (EthernetII, padded 802.1Q, ICMP, ICMPv6, 802.3,
